@@ -303,7 +303,13 @@ class Interp:
         d = PyDict(depth=self.loop_depth, oid=self.ctx.new_id())
         for k, v in zip(node.keys, node.values):
             if k is None:
-                raise self.unsupported(node, "dict unpacking")
+                src = self.eval(v, fr)
+                if not isinstance(src, PyDict):
+                    raise self.unsupported(node, "dict unpacking of a non-literal mapping")
+                for hk2, v2 in src.items.items():
+                    d.items[hk2] = v2
+                    d.keys_av[hk2] = src.keys_av[hk2]
+                continue
             kv = self.eval(k, fr)
             hk = hkey(kv)
             d.items[hk] = self.eval(v, fr)
@@ -653,6 +659,21 @@ class Interp:
         ext = ci.all_external_bases()
         if any(b in ("Enum", "enum.Enum") for b in ext):
             raise self.unsupported(node, "enum call") if node else Unsupported("enum call")
+        if any(b.split(".")[-1] == "NamedTuple" for b in ext):
+            # an instance of a typing.NamedTuple class is a tuple with named positions
+            fields = list(ci.attr_annotations)
+            vals: List[AV] = list(args)
+            for f in fields[len(vals):]:
+                if f in kwargs:
+                    vals.append(kwargs[f])
+                elif f in ci.attrs:
+                    fr0 = Frame(None, ci.module)
+                    vals.append(self.eval(ci.attrs[f], fr0))
+                else:
+                    raise AbsRaise(HostExc("TypeError", f"missing argument {f}"), self.site(node) if node is not None else None)
+            if len(vals) != len(fields):
+                raise AbsRaise(HostExc("TypeError", "too many arguments"), self.site(node) if node is not None else None)
+            return PyTuple(vals, fields=tuple(fields))
         inst = self.new_inst(ci)
         if "list" in ext or any(b.startswith("List") for b in ext):
             # list subclass: first positional arg is the iterable
